@@ -8,7 +8,7 @@
 //!    filesystem failure of the first shift / of the final move when count = 1).
 //!  * crash: at the k-th step boundary of the n-th attempt the directory is copied (crash image);
 //!    the rest of the history runs on the image with a FRESH appender.
-use crate::c07::{compress_for, n_threads, quiet_stdout, scratch_dir, snapshot, snapshot_canon, wait_quiescent, write_file};
+use crate::c07::{compress_for, n_threads, quiet_stdout, run_with_timeout, scratch_dir, snapshot, snapshot_canon, wait_quiescent, write_file};
 use crate::proto::*;
 use crate::rng::Rng;
 use log4rs::append::rolling_file::policy::compound::{
@@ -444,11 +444,11 @@ fn exec_bg(
     let out = quiet_stdout(|| {
         let mut out: Vec<String> = vec![];
         let mut attempts = 0usize;
-        let start = |root: &Path, out: &mut Vec<String>| -> Option<RollingFileAppender> {
+        let start = |root: &Path, out: &mut Vec<String>| -> Option<Arc<RollingFileAppender>> {
             match guarded(std::panic::AssertUnwindSafe(|| build(root, setup, &answer))) {
                 Ok(Ok(a)) => {
                     out.push(format!("rs:ok|-|{}", snapshot_canon(root, &setup.file)));
-                    Some(a)
+                    Some(Arc::new(a))
                 }
                 _ => {
                     out.push(format!("rs:err|-|{}", snapshot_canon(root, &setup.file)));
@@ -457,7 +457,13 @@ fn exec_bg(
             }
         };
         let mut appender = start(&root, &mut out);
+        let mut hung = false;
         for op in ops {
+            if hung {
+                // an append never returned (it holds the appender's lock): nothing later can run
+                out.push("HANG|-|-".to_owned());
+                continue;
+            }
             match op {
                 Op::Restart => {
                     wait_quiescent(baseline);
@@ -498,13 +504,22 @@ fn exec_bg(
                     let res = match &appender {
                         None => "no-appender".to_owned(),
                         Some(a) => {
-                            let r = guarded(std::panic::AssertUnwindSafe(|| {
-                                a.append(&log::Record::builder().level(log::Level::Info).args(format_args!("{}", msg)).build())
-                            }));
+                            // on a thread of its own: a rotation thread that died before setting
+                            // `ready` makes the next roll (inside append) wait for ever
+                            let (a2, m2) = (a.clone(), msg.clone());
+                            let r = run_with_timeout(4, move || {
+                                guarded(std::panic::AssertUnwindSafe(|| {
+                                    a2.append(&log::Record::builder().level(log::Level::Info).args(format_args!("{}", m2)).build())
+                                }))
+                            });
                             match r {
-                                Ok(Ok(())) => "ok".to_owned(),
-                                Ok(Err(_)) => "err".to_owned(),
-                                Err(_) => "PANIC".to_owned(),
+                                Some(Ok(Ok(()))) => "ok".to_owned(),
+                                Some(Ok(Err(_))) => "err".to_owned(),
+                                Some(Err(_)) => "PANIC".to_owned(),
+                                None => {
+                                    hung = true;
+                                    "HANG".to_owned()
+                                }
                             }
                         }
                     };
@@ -525,8 +540,13 @@ fn exec_bg(
                 }
             }
         }
-        wait_quiescent(baseline);
-        drop(appender.take());
+        if hung {
+            // the leaked thread holds the appender; dropping our handle must not block on it
+            std::mem::forget(appender.take());
+        } else {
+            wait_quiescent(baseline);
+            drop(appender.take());
+        }
         out
     });
     log4rs::verif_hooks::set_rotate_point(None);
